@@ -9,7 +9,7 @@ PATH_MAX = 4096
 MAGIC = b'<lv-1.0>'
 DEPTHS = [0, 1, 2, 3, 8, 9, 10, 11, 12, 18, 19, 20, 21, 22, 38, 39, 40, 41, 42, 78, 79, 80, 81, 82,
           158, 159, 160, 161, 162, 200, 253, 254, 255]
-WRAPS = ['system', 'popen', 'fork', 'vfork', 'execve', 'execv', 'execvp', 'posix_spawn', 'posix_spawnp']
+WRAPS = ['system', 'popen', 'fork', 'vfork', 'execve', 'execv', 'execvp', 'posix_spawn', 'posix_spawnp', 'mkstemp', 'fchmod']
 IMPL_KW = dict(exclude=('conf.c',), ldflags=['-Wl,' + ','.join('--wrap=' + w for w in WRAPS + ['realloc'])])
 
 
@@ -22,6 +22,7 @@ def build_impl_consistent(chk):
     import vlib
     with vlib.Lock('coq'):
         vlib.sh(['python3', os.path.join(vlib.VERIF, 'tools', 'gen_c11.py'), vlib.REPO])
+        vlib.sh(['python3', os.path.join(vlib.VERIF, 'tools', 'gen_temp.py'), vlib.REPO])
         vlib.sh(['make', '-s', '-C', vlib.VERIF, 'build/%s_model' % chk.family], timeout=1800)
     # per-run directory (vlib removes build/impl/<runkey> at the end): quick and thorough runs, or runs against two trees, do not share it
     return vlib.build_impl(getattr(chk, 'runkey', chk.id.lower()), os.path.join(vlib.VERIF, 'harness', chk.harness), **chk.impl_kwargs)
@@ -108,6 +109,9 @@ def odd_line(rng, includes):
         b'begin', b'begin ', b'begin\t' + n, b'beginx ' + n, b'Begin ' + n, b'BEGIN ' + n, b'bEGIN ' + n, b'begin  ' + n + b' extra words',
         b'  begin ' + n + b'  ', b'begin ' + n.upper(), b'begin ' + n.lower(), b'b', b'be', b'bx y',
         b'end', b'  end  ', b'end ', b'end of it', b'END', b'End', b'eND', b'eNd x', b'endx', b'en', b'e', b'ending soon',
+        # the closing word followed by a character that is neither a letter nor a blank: ordinary lines
+        b'end_marker 1', b'end2 x', b'end=1', b'end.', b'end\t', b'end\tx', b'end-of-block', b'END_ 2', b'end# x', b'end"', b'end\xe9',
+        b'begin_x ' + n, b'begin2 ' + n, b'begin=' + n, b'begin.' + n,
         b'%', b'  %  ', b'%"', b"%'", b'%zz', b'%zz top', b'% zz', b'%put(k v)', b'%put(kk w)', b'%put(a 1)',
         b'%prefix x', b'%prepro x', b'%preprocess x', b'%preproc', b'%include', b'%include ', b'%includex f', b'%include nosuchfile', b'%INCLUDE nosuchfile', b'%include  nomagic',
         b'x', b'a=b', b'text with # inside', b'text <with> brackets', b'  spaced   out  ',
@@ -646,3 +650,85 @@ SPAWN_OK = re.compile(rb'`|%[\s"\']*(exec|preproc)', re.I)
 
 def may_spawn(case):
     return bool(SPAWN_OK.search(text_of_case(case)))
+
+
+
+def gen_tmpf(rng, count):
+    """spiftool_temp_file, one call per case (case format: harness/c09.c).  Aimed at the case splits of Temp/TempProofs.v: the
+    name that fits the 256-byte buffer exactly, by one, and loses 1..7 characters (mkstemp then refuses, unless the template itself
+    supplies the missing X), candidates that exist already, fchmod failing, every umask, len = 1, 2, around the length of the name,
+    and the caller's block exactly len bytes long."""
+    def hx(b):
+        return b.hex() if b else '-'
+    alnum = b'abcdefghijklmnopqrstuvwxyzABCDEFGHIJKLMNOPQRSTUVWXYZ0123456789'
+
+    def pick():
+        return bytes(rng.choice(alnum) for _ in range(6)).decode()
+
+    def tpl_of(tl, xs=0):
+        body = bytes(rng.choice(b'abcxyzXLv-_.09' if rng.random() < 0.5 else bytes(range(1, 256)).replace(b'/', b'')) for _ in range(max(0, tl - xs)))
+        return (body + b'X' * xs)[:tl] if tl else b''
+    cases = []
+    seen = set()
+
+    def add(envk, n, tpl, ln, cap, um, picks, nex, fl):
+        cap = max(cap, len(tpl) + 1, ln, 1)
+        c = 'tmpf %s %d %s %d %d %o %s %d %s' % (envk, n, hx(tpl), ln, cap, um, ','.join(picks) if picks else '-', nex, fl or '-')
+        if c not in seen:
+            seen.add(c)
+            cases.append(c)
+    # the boundary of the name buffer, for every branch that uses a directory
+    for envk in ('D', 'M', 'B'):
+        for n in (150, 200, 247, 248, 249, 256, 300):
+            fit = 255 - 7 - n            # longest template whose name still ends in XXXXXX
+            for tl in sorted(set(max(0, fit + d) for d in (-30, -1, 0, 1, 2, 5, 6, 7, 8, 40))):
+                full = n + 1 + tl + 6
+                for ln in (full + 1, 1, 2, n, n + 1, n + 2, min(full, 255), 300):
+                    if rng.random() < 0.35 or ln == full + 1:
+                        add(envk, n, tpl_of(tl), ln, ln if rng.random() < 0.7 else ln + rng.randint(1, 40), rng.choice([0, 0o22, 0o77, 0o177, 0o777, 0o27]), [pick()], 0, '')
+                # the template supplies the X that the truncation cut off
+                for xs in (1, 3, 6, 9):
+                    if tl >= xs:
+                        add(envk, n, tpl_of(tl, xs), 400, 400, rng.choice([0, 0o22, 0o777]), [pick()], 0, '')
+    # candidates that exist, fchmod failing, missing directory, no candidate left
+    for _ in range(count):
+        envk = rng.choice('DDDMBK')
+        n = rng.choice([150, 160, 200, 230])
+        tl = rng.choice([0, 1, 6, 7, 12, 20])
+        tpl = tpl_of(tl, rng.choice([0, 0, 0, 2, 6]))
+        k = rng.choice([1, 1, 2, 3, 5])
+        picks = []
+        while len(picks) < k:
+            q = pick()
+            if q not in picks and q != 'XXXXXX':
+                picks.append(q)
+        if rng.random() < 0.2:
+            picks.append(picks[0])      # the same candidate twice
+        nex = 0 if envk == 'K' else rng.choice([0, 0, 1, k - 1, k])
+        full = n + 1 + tl + 6
+        ln = rng.choice([full + 1, full + 1, full, full - 5, 1, 2, 3, tl + 1, 600])
+        add(envk, n, tpl, ln, ln if rng.random() < 0.6 else ln + rng.randint(1, 300), rng.choice([0, 0o2, 0o22, 0o77, 0o177, 0o277, 0o377, 0o477, 0o577, 0o677, 0o777]),
+            picks, nex, 'F' if rng.random() < 0.2 else '')
+    # the real mkstemp (no TMPDIR, no TMP: /tmp), the six characters masked
+    for tl in (0, 6, 40, 243, 244, 245, 250, 300):
+        add('N', 0, tpl_of(tl).replace(b'X', b'x'), 600, 600, rng.choice([0, 0o22, 0o777]), [], 0, '')
+    add('D', 150, b'lvtmp-', 0, 64, 0o22, [pick()], 0, '')      # len = 0: refused
+    return cases
+
+
+
+def gen_keyword_edges():
+    """the words begin / end followed by every kind of character that is not a blank: each is an ordinary line of the block
+    (fixed cases: the classifier's two keyword tests, one line per boundary)"""
+    tails = [b'_marker 1', b'2 x', b'=1', b'.', b'-of-block', b'# x', b'"', b'\xe9', b'\x01', b'0', b'/', b'@', b'(', b'[', b'\x7f', b'\xff']   # no expansion characters ($ \\ ~ ` %)
+    cases = []
+    for kw in (b'end', b'END', b'eNd'):
+        lines = [b'begin foo']
+        for t in tails:
+            lines += [kw + t, b'after' + t[:1]]
+        lines += [b'end', b'outside 1']
+        cases.append('hist %s i r666f6f pa d f' % ftok('a', render(lines)))
+    for kw in (b'begin', b'BEGIN'):
+        lines = [b'begin foo'] + [kw + t + b' foo' for t in tails] + [b'inner', b'end', b'outside 2']
+        cases.append('hist %s i r666f6f pa d f' % ftok('a', render(lines)))
+    return cases
